@@ -28,10 +28,18 @@ type D struct {
 	order   []string
 	Timeout time.Duration
 	self    string // goroutine id of the director
+
+	goOp   map[string]string       // goroutine id -> operation name (for goroutines started by Go)
+	points map[string]*parkedPoint // operation name (or "g<id>") -> where it is parked
+}
+
+type parkedPoint struct {
+	name string
+	ch   chan struct{}
 }
 
 func New() *D {
-	return &D{ops: map[string]*op{}, Timeout: 5 * time.Second, self: goid()}
+	return &D{ops: map[string]*op{}, Timeout: 5 * time.Second, self: goid(), goOp: map[string]string{}, points: map[string]*parkedPoint{}}
 }
 
 var goidRe = regexp.MustCompile(`^goroutine (\d+) \[`)
@@ -56,12 +64,17 @@ func (d *D) Go(name string, f func() string) {
 	d.mu.Unlock()
 	go func() {
 		var res string
+		id := goid()
+		d.mu.Lock()
+		d.goOp[id] = name
+		d.mu.Unlock()
 		defer func() {
 			if r := recover(); r != nil {
 				res = fmt.Sprintf("panic:%v", r)
 			}
 			d.mu.Lock()
 			o.result, o.done = res, true
+			delete(d.goOp, id)
 			d.mu.Unlock()
 		}()
 		res = f()
@@ -90,6 +103,63 @@ func (d *D) Pending() []string {
 		}
 	}
 	return p
+}
+
+// PointHook is meant to be installed with drpcdebug.SetPointHook: the calling goroutine parks at the
+// named point until the director releases it.  Only goroutines selected by `filter` (operation name,
+// point name) park; filter == nil parks every goroutine started by Go.
+func (d *D) PointHook(filter func(op, point string) bool) func(string) {
+	return func(point string) {
+		id := goid()
+		d.mu.Lock()
+		opName, ok := d.goOp[id]
+		if !ok {
+			opName = "g" + id
+		}
+		if !ok && filter == nil || filter != nil && !filter(opName, point) {
+			d.mu.Unlock()
+			return
+		}
+		pp := &parkedPoint{name: point, ch: make(chan struct{})}
+		d.points[opName] = pp
+		d.mu.Unlock()
+		<-pp.ch
+	}
+}
+
+// ParkedAt returns the point at which the operation is parked ("" if it is not parked at a point).
+func (d *D) ParkedAt(opName string) string {
+	d.mu.Lock()
+	defer d.mu.Unlock()
+	if pp := d.points[opName]; pp != nil {
+		return pp.name
+	}
+	return ""
+}
+
+// ParkedOps lists the operations parked at points, sorted.
+func (d *D) ParkedOps() []string {
+	d.mu.Lock()
+	defer d.mu.Unlock()
+	var out []string
+	for n := range d.points {
+		out = append(out, n)
+	}
+	sort.Strings(out)
+	return out
+}
+
+// ReleasePoint lets the operation run on from the point it is parked at.
+func (d *D) ReleasePoint(opName string) bool {
+	d.mu.Lock()
+	pp := d.points[opName]
+	delete(d.points, opName)
+	d.mu.Unlock()
+	if pp == nil {
+		return false
+	}
+	close(pp.ch)
+	return true
 }
 
 // Lock / Unlock expose the director's mutex for harness-side bookkeeping shared with helper goroutines.
